@@ -178,6 +178,10 @@ Definition stored_c13 (c : rs_case) : bool :=
                  r_raw := if beqb (rc_up_encoding c) s_gzip || beqb (rc_up_encoding c) s_br then [] else rc_orig c |} in
     if spec_compressible (case_filter c) r0 && negb (is_empty (rc_orig c))
     then negb (is_empty g) && negb (is_empty b) && is_empty w
+         (* ... with the best-compression profile, whatever profile the server names:
+            a variant pike produced itself is that profile's output for the decoded body *)
+         && (beqb (rc_up_encoding c) s_gzip || beqb g (c_gzip_enc c s_best (rc_orig c)))
+         && (beqb (rc_up_encoding c) s_br || beqb b (c_br_enc c s_best (rc_orig c)))
     else true
   else (* not stored: exactly the upstream's single variant *)
     (Nat.leb (length (filter (fun x => negb (is_empty x)) [g; b; w])) 1).
